@@ -77,7 +77,13 @@ def classify(case, out):
     return case.get("tag", "sys").split("-")[0] + ":" + r
 
 
+_SHOWN = [0]
+
+
 def show_model(case, out):
+    _SHOWN[0] += 1
+    if _SHOWN[0] > 5:   # check.py keeps only the first five mismatches
+        return None
     s = case["sys"]
     e = P.env_lit(s)
     return core.coq_eval_text(PID, COQ_HEADER, f"let '(st, er, cv) := resolve false {e} {P.cons_lit(s['cons'])} 1000%nat in (slices_of {e} st, er, cv)")
